@@ -741,6 +741,10 @@ func (g *gen) block(parent *scope, n int, d int) string {
 	sc := &scope{parent: parent}
 	var out []string
 	for i := 0; i < n && g.budget > 0; i++ {
+		if g.opt.Marks && g.chance(40, "markstmt") {
+			g.nmark++
+			out = append(out, fmt.Sprintf("_ = mk(%d, 0)", g.nmark))
+		}
 		out = append(out, g.stmt(sc, d))
 	}
 	if len(out) == 0 {
@@ -767,7 +771,7 @@ func (g *gen) assignable(sc *scope) []variable {
 // stmt generates one statement (possibly compound). New variables are added to sc.
 func (g *gen) stmt(sc *scope, d int) string {
 	g.budget--
-	max := 30
+	max := 38
 	if d <= 0 {
 		max = 12 // only simple statements
 	}
@@ -903,6 +907,10 @@ func (g *gen) stmt(sc *scope, d int) string {
 			inner.vars = append(inner.vars, variable{name: n, t: tInt})
 			g.f("if-init")
 		} else {
+			if g.opt.Marks && g.chance(50, "markif") {
+				g.nmark++
+				s += fmt.Sprintf("mk(%d, 1) == 1 && ", g.nmark)
+			}
 			s += g.expr(sc, tBool, 3)
 		}
 		s += " {\n" + indent(g.block(inner, 1+g.intn(3, "ifn"), d-1), 1) + "\n}"
@@ -1114,6 +1122,58 @@ func (g *gen) stmt(sc *scope, d int) string {
 		inner := &scope{parent: sc, vars: []variable{{name: v, t: tInt}}}
 		return fmt.Sprintf("{\n\t%s := make(chan int, 3)\n\t%s <- %s\n\t%s <- %s\n\tclose(%s)\n\tfor %s := range %s {\n%s\n\t}\n\tselect {\n\tcase x, ok := <-%s:\n\t\tfmt.Println(%q, x, ok)\n\tdefault:\n\t\tfmt.Println(\"empty\")\n\t}\n}",
 			ch, ch, g.expr(sc, tInt, 1), ch, g.expr(sc, tInt, 1), ch, v, ch, indent("_ = "+v+"\n"+g.printStmt(inner, g.tag()), 2), ch, g.tag())
+	case 30: // closures created in a loop, each capturing the loop variable
+		g.f("closure-in-loop")
+		fs, i, f := g.fresh("fs"), g.fresh("i"), g.fresh("f")
+		inner := &scope{parent: sc, vars: []variable{{name: i, t: tInt, ro: true}}}
+		return fmt.Sprintf("{\n\tvar %s []func() int\n\tfor %s := 0; %s < 3; %s++ {\n\t\t%s = append(%s, func() int { return %s })\n\t}\n\tfor _, %s := range %s {\n\t\tfmt.Println(%q, %s())\n\t}\n}",
+			fs, i, i, i, fs, fs, g.expr(inner, tInt, 2), f, fs, g.tag(), f)
+	case 31: // struct / array value semantics and equality
+		g.f("value-semantics")
+		st := g.structs[g.intn(len(g.structs), "vs")]
+		a, b := g.fresh("v"), g.fresh("v")
+		lit := g.structLit(sc, st, 2)
+		s := fmt.Sprintf("%s := %s\n%s := %s\n", a, lit, b, a)
+		fs := g.allFields(st)
+		for _, fl := range fs {
+			if fl.t == tInt {
+				s += fmt.Sprintf("%s.%s++\n", b, fl.name)
+				break
+			}
+		}
+		if g.comparableStruct(st) {
+			s += fmt.Sprintf("fmt.Println(%q, %s == %s, %s != %s)\n", g.tag(), a, b, a, a)
+		}
+		arr := g.fresh("v")
+		s += fmt.Sprintf("%s := %s\n%sc := %s\n%sc[0]++\nfmt.Println(%q, %s, %sc, %s == %sc)\nfmt.Printf(\"%s %%+v %%+v\\n\", %s, %s)", arr, g.expr(sc, tArr3, 1), arr, arr, arr, g.tag(), arr, arr, arr, arr, g.tag(), a, b)
+		return s
+	case 32: // string switch, byte/rune conversions
+		g.f("string-switch")
+		sv := g.fresh("v")
+		return fmt.Sprintf("{\n\t%s := %s\n\tswitch %s {\n\tcase \"\", \"a\":\n\t\tfmt.Println(%q, \"short\")\n\tcase \"zz\" + %s:\n\t\tfmt.Println(%q)\n\tdefault:\n\t\tfmt.Println(%q, []byte(%s), []rune(%s), string([]rune(%s)) == %s, len([]rune(%s)))\n\t}\n}",
+			sv, g.expr(sc, tString, 2), sv, g.tag(), g.strLit(), g.tag(), g.tag(), sv, sv, sv, sv, sv)
+	case 33: // defer changing a named result, recover returning a value
+		g.f("defer-named-result")
+		nr := g.fresh("nr")
+		return fmt.Sprintf("fmt.Println(%q, func() (%s int) {\n\tdefer func() { %s *= 2 }()\n\tdefer func() {\n\t\tif e := recover(); e != nil {\n\t\t\t%s = -1\n\t\t}\n\t}()\n\tif %s {\n\t\tpanic(\"p\")\n\t}\n\treturn %s\n}())",
+			g.tag(), nr, nr, nr, g.expr(sc, tBool, 2), g.expr(sc, tInt, 2))
+	case 34: // nested slices and anonymous structs
+		g.f("nested-composite")
+		m, a := g.fresh("v"), g.fresh("v")
+		return fmt.Sprintf("%s := [][]int{{%s}, {%s, %s}, nil}\n%s[2] = append(%s[2], %s[1]...)\n%s := struct {\n\tn int\n\ts []string\n}{%s, []string{%s}}\nfmt.Println(%q, %s, len(%s[0]), %s, %s.n+len(%s.s))",
+			m, g.expr(sc, tInt, 1), g.expr(sc, tInt, 1), g.expr(sc, tInt, 1), m, m, m, a, g.expr(sc, tInt, 1), g.expr(sc, tString, 1), g.tag(), m, m, a, a, a)
+	case 35: // fixed-width integer wrap-around and mixed conversions
+		g.f("int-wraparound")
+		x := g.fresh("v")
+		return fmt.Sprintf("{\n\t%s := int8(k0 + %s)\n\t%s += 100\n\t%s *= 3\n\tfmt.Println(%q, %s, uint16(%s), uint32(k0+%s)*4000000000, int32(k0+%s)<<30, float32(%s)/3)\n}",
+			x, g.expr(sc, tInt, 1), x, x, g.tag(), x, x, g.expr(sc, tInt, 1), g.expr(sc, tInt, 1), x)
+	case 36: // complex numbers and constants of other kinds
+		g.f("complex")
+		return fmt.Sprintf("{\n\tzc := complex(float64(%s), 1.5)\n\tzc = zc*zc + 2i\n\tconst big = 1 << 40\n\tconst typed int64 = big >> 3\n\tfmt.Println(%q, zc, real(zc), imag(zc), big/1024, typed, 'x', \"s\"[0])\n}", g.expr(sc, tInt, 1), g.tag())
+	case 37: // errors: wrapping, errors.Is / As, type switch on error and Stringer
+		g.f("errors")
+		return fmt.Sprintf("{\n\tbase := errors.New(%s)\n\twrapped := fmt.Errorf(\"ctx %%d: %%w\", %s, base)\n\tvar e interface{} = wrapped\n\tswitch x := e.(type) {\n\tcase fmt.Stringer:\n\t\tfmt.Println(%q, x.String())\n\tcase error:\n\t\tfmt.Println(%q, x, errors.Is(x, base), errors.Unwrap(x) == base)\n\t}\n}",
+			g.strLit(), g.expr(sc, tInt, 1), g.tag(), g.tag())
 	case 29: // goto forward (no declarations jumped over) / sort
 		if g.chance(50, "sortorgoto") {
 			g.f("sort")
